@@ -25,11 +25,25 @@ def setup(common=None):
     from unyt import dimensions as D
     from unyt.testing import assert_allclose_units, assert_array_equal_units
 
-    reg = unyt.UnitRegistry()
     dims = {"L": D.length, "T": D.time, "N": D.dimensionless}
-    for n, s, d in DY:
-        reg.add(n, s, dims[d])
+
+    def registry(la_scale):
+        r = unyt.UnitRegistry()
+        for n, s, d in DY:
+            r.add(n, la_scale if n == "la" else s, dims[d])
+        return r
+
+    reg = registry(1.0)
     units = {n: unyt.Unit(n, registry=reg) for n, _, _ in DY}
+    # the same spelling with another value: a second registry in which la = 4 (lb unchanged) ...
+    reg2 = registry(4.0)
+    units["la2"] = unyt.Unit("la", registry=reg2)
+    units["lb2"] = unyt.Unit("lb", registry=reg2)
+    # ... and a third one whose la is re-valued by registry.modify between taking the two units
+    reg3 = registry(1.0)
+    units["lapre"] = unyt.Unit("la", registry=reg3)
+    reg3.modify("la", 4.0)
+    units["lapost"] = unyt.Unit("la", registry=reg3)
     for n in ("m", "km", "cm", "inch", "s", "ms", "dimensionless", "percent", "K", "degC"):
         units[n] = unyt.Unit(n)
     _U.update(np=np, unyt=unyt, D=D, units=units, uq=unyt.unyt_quantity, ua=unyt.unyt_array, reg=reg)
@@ -49,18 +63,29 @@ def _f(p):
     return int(p[0]) / int(p[1])
 
 
-def _operand(kind, xs, us):
+_TAGS = {"nan": float("nan"), "inf": float("inf"), "-inf": float("-inf"), "-0": -0.0}
+
+
+def _vals(xs, tags):
+    tags = tags or [""] * len(xs)
+    return [_TAGS[t] if t else _f(x) for x, t in zip(xs, tags)]
+
+
+def _operand(kind, xs, us, tags=None):
     np, U = _U["np"], _U["units"]
+    vs = _vals(xs, tags)
     if kind == "q":
-        return _U["uq"](_f(xs[0]), U[us[0]])
+        return _U["uq"](vs[0], U[us[0]])
     if kind == "arr":
-        return _U["ua"]([_f(x) for x in xs], U[us[0]])
+        return _U["ua"](np.array(vs, dtype="float64"), U[us[0]])
+    if kind == "a0":
+        return _U["ua"](np.array(vs[0]), U[us[0]])
     if kind == "bs":
-        return _f(xs[0])
+        return vs[0]
     if kind == "ba":
-        return np.array([_f(x) for x in xs])
+        return np.array(vs, dtype="float64")
     if kind == "lst":
-        return [_U["uq"](_f(x), U[u]) for x, u in zip(xs, us)]
+        return [_U["uq"](v, U[u]) for v, u in zip(vs, us)]
     raise ValueError(kind)
 
 
@@ -74,16 +99,17 @@ def _is_bool(x):
     return isinstance(x, (bool, _U["np"].bool_))
 
 
-def _call_helper(h, a, d, rt, at):
+def _call_helper(h, a, d, rt, at, en=""):
     np = _U["np"]
     f = _U["helpers"][h]
+    kw = {"equal_nan": en == "true"} if en else {}
     try:
         if h in ("allclose_units", "assert_allclose_units"):
-            res = f(a, d, _tol(rt), _tol(at))
+            res = f(a, d, _tol(rt), _tol(at), **kw)
         elif h in ("np.allclose", "np.isclose"):
-            res = f(a, d, rtol=_tol(rt), atol=_tol(at))
+            res = f(a, d, rtol=_tol(rt), atol=_tol(at), **kw)
         else:
-            res = f(a, d)
+            res = f(a, d, **kw)
     except Exception as e:  # noqa: BLE001 - the observation is the exception
         return {"k": "raise", "exc": type(e).__name__, "v": []}
     if h.startswith("assert_"):
@@ -99,9 +125,9 @@ def _call_helper(h, a, d, rt, at):
 
 
 def observe_close(c):
-    a = _operand(c["ka"], c["a"], c["au"])
-    d = _operand(c["kd"], c["d"], c["du"])
-    return _call_helper(c["helper"], a, d, c["rt"], c["at"])
+    a = _operand(c["ka"], c["a"], c["au"], c.get("sa"))
+    d = _operand(c["kd"], c["d"], c["du"], c.get("sd"))
+    return _call_helper(c["helper"], a, d, c["rt"], c["at"], c.get("en", ""))
 
 
 # ---------------------------------------------------------------------------
@@ -269,11 +295,19 @@ def _make_obj(ob):
     return obj, full
 
 
+def _uname(units):
+    """name of a unit in the specification's table: spelling, value AND registry identify it (la of three registries)"""
+    for n, u in _U["units"].items():
+        if str(units) == str(u) and units.base_value == u.base_value and units.registry is u.registry:
+            return n
+    return str(units)
+
+
 def _snap(obj, full):
     np = _U["np"]
     return {
         "x": [_rat(v) for v in np.asarray(obj).ravel()],
-        "u": str(obj.units) if hasattr(obj, "units") else "bare",
+        "u": _uname(obj.units) if hasattr(obj, "units") else "bare",
         "dt": str(np.asarray(obj).dtype),
         "base": [_rat(v) for v in np.asarray(full).ravel()],
     }
